@@ -83,6 +83,17 @@ func runC30(c *eng.Ctx) {
 			}
 		})
 		c.Check("R3", "index-increment", nc.Pos(), inc != nil && eng.HasAtom(eng.Guards(inc), `^p0\.terminated$`, false), "a live tracker's index grows by one per notification")
+		if inc != nil {
+			// … and nothing but termination suppresses it (no coalescing of notifications: a
+			// change after an index was handed out must advance the index)
+			extra := ""
+			for _, a := range eng.WithoutImplied(eng.Guards(inc)) {
+				if !(a.Expr == "p0.terminated" && !a.Pos) {
+					extra = a.String()
+				}
+			}
+			c.Check("R3", "index-increment-unconditional", inc.Pos(), extra == "", "every notification of a live tracker advances the index — no other condition can skip it", extra)
+		}
 		c.Check("R3", "index-skips-zero", nc.Pos(), wrap != nil && eng.HasAtom(eng.Guards(wrap), `^\(p0\.index == 0\)$`, true), "on wrap-around the index skips 0")
 		sig := false
 		for _, call := range eng.CallsNamed(nc, "(*sync.Cond).Signal") {
